@@ -49,7 +49,16 @@ PERTURB += [
     # dual-porosity settings of TRANSPORT (-stagnant) must not survive a load
     "SOLUTION 0-2\n Na 1\n Cl 1\nSOLUTION 4-5\n K 1\n Cl 1\nTRANSPORT\n -cells 2\n -shifts 1\n -time_step 100\n -stagnant 1 6.8e-6 0.3 0.1\nEND\n",
 ]
+PERTURB += [
+    # print gates that live outside the engine object (PHRQ_io::punch_on / log_on) must not survive a load
+    "PRINT\n -selected_output false\nSELECTED_OUTPUT 1\n -reset false\n -pH true\nSOLUTION 1\n Na 1\n Cl 1\nEND\n",
+    "KNOBS\n -logfile true\nSOLUTION 1\n Na 1\n Cl 1\nEND\n",
+]
 FAILING = [
+    # requests that are carried out at the END of the simulation stay pending when the simulation stops on an input error
+    "SOLUTION 1\n Na 1\n Cl 1\nCOPY solution 1 5\nSOLUTION 2\n pH 7 charge\n Na 1 charge\nEND\n",
+    "SOLUTION_MIX 3\n 1 0.5\n 2 0.5\nSOLUTION 9\n pH 7 charge\n Na 1 charge\nEND\n",
+    "EXCHANGE_MIX 4\n 1 0.5\nDELETE\n -solution 7\nSOLUTION 9\n pH 7 charge\n Na 1 charge\nEND\n",
     "SOLUTION 1\n Na 1\n Clx 3 charge\nEND\n",                 # input error
     "SOLUTION 1\n pH 7 charge\n Na 1 charge\nEND\n",            # two charge balances
     "SOLUTIONX 1\n Na 1\nEQUILIBRIUM_PHASES\n Nosuchphase 0 1\nEND\n",
@@ -104,7 +113,7 @@ def gen_case(rng, example_hist=None):
         probe_db = "pitzer.dat"                       # Pitzer-model state of the history (A-phi, parameters) must not leak into a Pitzer probe
     probe, info = gen_inputs.multi_sim_input(rng, user_numbers=[1, 3], nsims=rng.randint(1, 3))
     if probe_db != "pitzer.dat":
-        probe = PROBE_EXTRA + probe + "RUN_CELLS\n -cells 1-3\nEND\n"      # consults every surviving reactant numbered 1..3
+        probe = PROBE_EXTRA + probe + "RUN_CELLS\n -cells 1-3\nEND\nCOPY solution 1 33\nEND\n"      # consults every surviving reactant numbered 1..3
     else:
         probe = "SOLUTION 1\n Na 1000\n Cl 1000\n Mg 50\n S(6) 50\nSELECTED_OUTPUT 1\n -high_precision true\n -totals Na Mg\n -activities Na+ H2O\nUSER_PUNCH 1\n -headings g osm\n 10 PUNCH GET(1), OSMOTIC\nEND\n"
     return {"hist": hist, "probe_db": probe_db, "probe": probe, "load_by": rng.choice(["file", "string"])}
@@ -144,6 +153,10 @@ def hist_ops(case, with_history):
         ops.append(["c", "LoadDatabaseString", 0, open(os.path.join(vlib.DB, case["probe_db"]), errors="replace").read()])
     iload = len(ops) - 1
     ops.append(["obs", 0, "lines"])
+    for n_ in (1, 3):          # per-user-number switches are reset by the load: switch the text sinks of the probe's numbers on, on both sides
+        ops.append(["c", "SetCurrentSelectedOutputUserNumber", 0, n_])
+        ops.append(["c", "SetSelectedOutputStringOn", 0, 1])
+    ops.append(["c", "SetCurrentSelectedOutputUserNumber", 0, 1])
     ops.append(["c", "RunString", 0, case["probe"]])
     ops.append(["obs", 0, "lines"])
     ops.append(["c", "RunString", 0, "DUMP\n -all\nEND\n"])
@@ -162,10 +175,10 @@ def run_side(case, wexe, with_history):
         res, rc, err = wrap.run_script(wexe, ops, d, timeout=240)
     if rc != 0 or any(r is None for r in res):
         return None, (rc, err[-300:])
-    out = {"load_rc": res[iload]["r"], "after_load": res[iload + 1], "probe_rc": res[iload + 2]["r"], "after_probe": res[iload + 3], "final": res[iload + 5]}
+    out = {"load_rc": res[iload]["r"], "after_load": res[iload + 1], "probe_rc": res[iload + 7]["r"], "after_probe": res[iload + 8], "final": res[iload + 10]}
     for k in range(len(PARAM_PROBES)):
-        o = dict(res[iload + 7 + 2 * k])
-        o["rc"] = res[iload + 6 + 2 * k]["r"]
+        o = dict(res[iload + 12 + 2 * k])
+        o["rc"] = res[iload + 11 + 2 * k]["r"]
         out["param_probe_%d" % k] = o
     return out, None
 
@@ -258,6 +271,12 @@ def run(ctx):
         filed = any(h[0] == "run" and re.search(r"(?im)^\s*-fi", h[1]) for h in case["hist"])
         for stage in ("after_load", "after_probe", "final") + tuple("param_probe_%d" % k for k in range(len(PARAM_PROBES))):
             oa, ob = norm(a[stage]), norm(b[stage])
+            # the DEFAULT file name selected_<n>.<id>.out that a run assigns to a user number it defines is the name a fresh instance will
+            # assign as well once the number is defined: stored or not yet stored is not an observable difference
+            for o in (oa, ob):
+                for n_, v in o.get("sel", {}).items():
+                    if isinstance(v, dict) and v.get("fileName") == "selected_%s.%s.out" % (n_, o.get("id", 0)):
+                        v["fileName"] = ""
             if filed:
                 # a selected-output file name given with -file in an earlier input is a user-set file name: it survives the load by design
                 for o in (oa, ob):
